@@ -76,6 +76,9 @@ def cases(tier, seed):
                 if tier == "quick" and idx[0] % 3 and nb == 2:
                     idx[0] += 1
                     continue
+                if rule == "PluralityVeto" and nb == 2 and idx[0] % 4:
+                    idx[0] += 1
+                    continue
                 m = rot([1, 2, 3])
                 tb = rot([None, "random", "borda", "first_place"])
                 cs.append(("rank", rule, cands, bl, m, tb, None))
@@ -231,5 +234,15 @@ def check_case(case):
 
 def run(tier="quick", seed=0):
     cs = cases(tier, seed)
-    return common.run("bounded.C01", cs, bound="3 candidates x <=2 ballots x all m (quick); <=5 candidates x 6 ballots random (thorough)",
-                      rule=RULE, budget_s=170 if tier == "quick" else 1500)
+    r = common.run("bounded.C01", cs, bound="3 candidates x <=2 ballots x all m (quick); <=5 candidates x 6 ballots random (thorough)",
+                   rule=RULE, budget_s=170 if tier == "quick" else 1500)
+    # STV / IRV / SequentialRCV: the C02 cases, keeping the exception / outcome findings (keys C01:...)
+    from . import C02
+    r2 = C02.run(tier, seed, only_prefix="C01:", subsample=3 if tier == "quick" else 1)
+    r["evaluations"] += r2["evaluations"]
+    r["distinct_nontrivial"] += r2["distinct_nontrivial"]
+    r["cases"] += r2["cases"]
+    r["violations"] += r2["violations"]
+    r["exhaustive"] = r["exhaustive"] and r2["exhaustive"]
+    r["bounded_wall_s"] += r2["bounded_wall_s"]
+    return r
